@@ -27,6 +27,8 @@ def run_seed(sid, sel, man):
     d = os.path.join(ROOT, 'seeded', sid)
     meta = json.load(open(os.path.join(d, 'meta.json')))
     prop = meta['property']
+    if meta.get('obsolete'):
+        return sid, prop, {'error': 'obsolete (see meta.json)'}
     wt = os.path.join(SCR, sid)
     sh('git -C /repo worktree remove --force %s' % wt)
     rc, out = sh('git -C /repo worktree add --detach %s HEAD -q' % wt)
